@@ -462,6 +462,28 @@ def same_id_cases():
     return True
 
 
+def segment_syntax_cases():
+    """S lines of both syntaxes with 0-3 tags of every datatype, sequences and names that contain colons, too few / too many fields:
+    Segment._subclass tells the syntax from the fields in front of the tags"""
+    import gfapy, itertools
+    from gfapy.line.segment.segment import Segment
+    tags = ["ab:Z:s", "cd:J:[1]", "ef:H:0A", "gh:B:c,1,-2", "gi:B:f,1.5", "ij:A:x", "kl:f:0.5", "LN:i:4", "mn:i:-3"]
+    for ntags in range(0, 4):
+        for ts in itertools.permutations(tags, ntags) if ntags < 3 else [tuple(tags[i:i + 3]) for i in range(len(tags) - 2)]:
+            for pos, want in ((["nm", "ACGT"], gfapy.line.segment.GFA1), (["nm", "4", "ACGT"], gfapy.line.segment.GFA2), (["n:m", "*"], gfapy.line.segment.GFA1), (["ab:Z:x", "ACGT"], gfapy.line.segment.GFA1), (["ab:Z:x", "4", "*"], gfapy.line.segment.GFA2),
+                              (["nm", "4", "*"], gfapy.line.segment.GFA2), (["nm"], None), (["nm", "4", "ACGT", "x"], None), ([], None)):
+                data = ["S"] + pos + list(ts)
+                try:
+                    got = Segment._subclass(data)
+                except gfapy.FormatError:
+                    got = None
+                except Exception as e:
+                    return "Segment._subclass(%r) raised %s" % (data, type(e).__name__)
+                if got is not want:
+                    return "Segment._subclass(%r) = %s, expected %s" % (data, getattr(got, "__name__", got), getattr(want, "__name__", want))
+    return True
+
+
 def field_to_s_cases():
     """positional fields and tags holding decoded values whose encoder is laxer than the datatype's grammar: at level >= 2 writing
     reports them; valid decoded values and kept texts are written at every level; an absent field raises NotFoundError"""
